@@ -363,16 +363,31 @@ using VCM = VAR<TV<0, Kind::copy_move>, TV<1, Kind::copy_move>, TV<2, Kind::copy
 using VMO = VAR<TV<0, Kind::move_only>, TV<1, Kind::move_only>, TV<2, Kind::move_only>>;
 using VCO = VAR<TV<0, Kind::copy_only>, TV<1, Kind::copy_only>, TV<2, Kind::copy_only>>;
 using VTA = VAR<TA<0>, TA<1>, TA<2>>;
-constexpr std::uint32_t nkinds = 4;
-char const* const kind_names[] = {"TCM", "TMO", "TCO", "TA (trivially assignable)"};
+using VNC = VAR<NC<0>, NC<1>, NC<2>>; // copy constructor/assignment noexcept(false): is_nothrow_* selected paths
+using VAO = VAR<AO<0>, AO<1>, AO<2>>; // overloaded unary operator&
+constexpr std::uint32_t nkinds = 6;
+char const* const kind_names[] = {"TCM", "TMO", "TCO", "TA (trivially assignable)", "NC (copy may throw)", "AO (overloaded operator&)"};
+// The TU is built twice (registry flags -DC03_PART=1: kinds 0..2, =2: kinds 3..5) so that the halves compile in parallel.
+#ifndef C03_PART
+#define C03_PART 0
+#endif
+constexpr std::uint32_t kind_lo = (C03_PART == 2 ? 3 : 0);
+constexpr std::uint32_t kind_hi = (C03_PART == 1 ? 3 : 6);
 auto run_cell(Cell const& c) -> std::string
 {
     std::string d;
     switch (c.kind % nkinds) {
+#if C03_PART != 2
     case 0: d = VCM::matrix_case(c.op, c.from % 4, c.to % 4); break;
     case 1: d = VMO::matrix_case(c.op, c.from % 4, c.to % 4); break;
     case 2: d = VCO::matrix_case(c.op, c.from % 4, c.to % 4); break;
-    default: d = VTA::matrix_case(c.op, c.from % 4, c.to % 4); break;
+#endif
+#if C03_PART != 1
+    case 3: d = VTA::matrix_case(c.op, c.from % 4, c.to % 4); break;
+    case 4: d = VNC::matrix_case(c.op, c.from % 4, c.to % 4); break;
+    case 5: d = VAO::matrix_case(c.op, c.from % 4, c.to % 4); break;
+#endif
+    default: return "";
     }
     if (d.empty()) { return d; }
     return std::string("variant<A,int,B,C> of ") + kind_names[c.kind % nkinds] + ", " + VCM::op_names[c.op % VCM::NOPS] + " from index " + std::to_string(c.from % 4) + " to index " + std::to_string(c.to % 4) + ": " + d;
@@ -381,10 +396,16 @@ auto run_cell(Cell const& c) -> std::string
 void init_configs()
 {
     configs() = {
+#if C03_PART != 2
         Config{"variant<A,int,B,C>/TCM", &VCM::run, VCM::NOPS, VCM::op_names, true},
         Config{"variant<A,int,B,C>/TMO", &VMO::run, VMO::NOPS, VMO::op_names, true},
         Config{"variant<A,int,B,C>/TCO", &VCO::run, VCO::NOPS, VCO::op_names, true},
+#endif
+#if C03_PART != 1
         Config{"variant<A,int,B,C>/TA", &VTA::run, VTA::NOPS, VTA::op_names, true},
+        Config{"variant<A,int,B,C>/NC", &VNC::run, VNC::NOPS, VNC::op_names, true},
+        Config{"variant<A,int,B,C>/AO", &VAO::run, VAO::NOPS, VAO::op_names, true},
+#endif
     };
 }
 
@@ -393,9 +414,9 @@ void init_configs()
 void vf_run(vf::Ctx& c)
 {
     init_configs();
-    // E2: the complete matrix (every shard runs its slice; 4 element families x 15 ops x 4 x 4)
+    // E2: the complete matrix (every shard runs its slice; 6 element families x 15 ops x 4 x 4, split over the two builds of this TU)
     std::uint64_t n = 0;
-    for (std::uint32_t kind = 0; kind < nkinds; ++kind) {
+    for (std::uint32_t kind = kind_lo; kind < kind_hi; ++kind) {
         for (std::uint32_t op = 0; op < VCM::matrix_ops; ++op) {
             for (std::uint32_t from = 0; from < 4; ++from) {
                 for (std::uint32_t to = 0; to < 4; ++to) {
